@@ -92,7 +92,9 @@ Definition respond (t : N) (s : sess) (r : request) : N * sess * list effect :=
     if t =? 60 then (if r_ok r then (61, upd true false false false false false, []) else rej)
     else if t =? 62 then (if s_started s && r_ok r then (63, s, []) else rej)
     else if t =? 64 then
-      (if s_started s && negb (s_proved s) && r_ok r then (65, upd true true false false false false, []) else rej)
+      (* (a ProveDevice may be repeated in a session: whether the key exchange takes a second parameter is part of the
+         fact r_ok — ECDH and DH sessions refuse it, ASYMKEX re-keys — and what the session stored so far stays) *)
+      (if s_started s && r_ok r then (65, upd true true (s_ready s) (s_hmac s) (s_devmod s) (s_svcdone s), []) else rej)
     else if t =? 66 then
       (if r_ok r then (67, upd (s_started s) (s_proved s) true (s_hmac s || r_hmac r) (s_devmod s) (s_svcdone s), []) else rej)
     else if t =? 68 then
